@@ -602,6 +602,20 @@ func optionalTimestampRule(x *Ctx, rule string) {
 		}
 	}
 	x.C.Obl(rule, "nil:OptionalTimestamp", x.pos(f), "an absent timestamp yields (nil, nil)", ok, renderPaths(vs, 2))
+	// a present timestamp is never turned into an absent one, whatever its value
+	{
+		vs, _ := x.E.ConsistentPaths(f, paths.WantSuccess, notNil, 0)
+		good := len(vs) > 0
+		detail := ""
+		for _, v := range vs {
+			r := v.Results()[0]
+			if val := storedValue(v, r); val != "call[time.Unix](*arg0,const(0))" {
+				good = false
+				detail += "for a present timestamp returns " + r.String() + " holding " + val + ":\n" + v.String() + "\n"
+			}
+		}
+		x.C.Obl(rule, "present-stays-present:OptionalTimestamp", x.pos(f), "every success path for a non-nil input returns a pointer to time.Unix(*sec, 0): no value (e.g. 0) is mapped to 'no bound'", good, detail)
+	}
 	for _, c := range []struct {
 		name string
 		v    int64
